@@ -7,8 +7,10 @@ open GV.Hex GV.PathClean GV.Cache
 
 /-- the driver's instance of the abstract environment: the file name IS the key (an injective
     "hash"; the check applies SHA-256 to it before comparing with the real file name), the envelope
-    is a sign/magnitude header followed by the payload. -/
-def env : Env Bytes where
+    is a sign/magnitude header followed by the payload; `np` = the runes ≥ 0x80 for which Go's
+    `unicode.IsPrint` is false (a parameter of the theorems; supplied by the check from Go's tables). -/
+def env (np : List Nat) : Env Bytes where
+  isPrint := fun r => !np.contains r
   h := id
   sealE := fun (t, pl) => (if t < 0 then 1 else 0) :: t.natAbs :: pl
   openE := fun
@@ -27,35 +29,45 @@ def parseCfg : List String → Option Cfg
     | _, _, _, _, _, _ => none
   | _ => none
 
+structure St where
+  fs : FS
+  np : List Nat
+
+def St.init : St := ⟨FS.empty, []⟩
+
 /-- topic `cache` -/
-def handle (fs : FS) : List String → FS × String
-  | ["reset"] => (FS.empty, "ok")
+def handle (st : St) : List String → St × String
+  | ["reset"] => ({ st with fs := FS.empty }, "ok")
+  | ["nonprint", l] =>
+    match parseNatList l with
+    | some np => ({ st with np := np }, "ok")
+    | none => (st, "bad-op")
   | ["clean", h] =>
     match parseHex h with
-    | some s => (fs, toHex (clean s) ++ " " ++ toHex (cleanBytes s))
-    | none => (fs, "bad-op")
+    | some s => (st, toHex (clean s) ++ " " ++ toHex (cleanBytes s))
+    | none => (st, "bad-op")
   | ["quote", h] =>
     match parseHex h with
-    | some s => (fs, toHex (quote s))
-    | none => (fs, "bad-op")
+    | some s => (st, toHex (quote (env st.np).isPrint s))
+    | none => (st, "bad-op")
   | ["key", a, b, c, d, t, v, p] =>
     match parseCfg [a, b, c, d, t, v], parseHex p with
-    | some cfg, some p => (fs, toHex (packageKey cfg p))
-    | _, _ => (fs, "bad-op")
+    | some cfg, some p => (st, toHex (packageKey (env st.np).isPrint cfg p))
+    | _, _ => (st, "bad-op")
   | ["store", a, b, c, d, t, v, tested, p, tm, pl] =>
     match parseCfg [a, b, c, d, t, v], parseHex tested, parseHex p, tm.toInt?, parseHex pl with
     | some cfg, some tested, some p, some tm, some pl =>
       let bc : BuildCache := ⟨cfg, tested⟩
-      if isTestPackage bc p then (fs, "skipped")
-      else (store env bc p tm pl fs, "stored " ++ toHex (cachedPath env cfg p))
-    | _, _, _, _, _ => (fs, "bad-op")
+      if isTestPackage bc p then (st, "skipped")
+      else ({ st with fs := store (env st.np) bc p tm pl st.fs }, "stored " ++ toHex (cachedPath (env st.np) cfg p))
+    | _, _, _, _, _ => (st, "bad-op")
   | ["load", a, b, c, d, t, v, tested, p, tm] =>
     match parseCfg [a, b, c, d, t, v], parseHex tested, parseHex p, tm.toInt? with
     | some cfg, some tested, some p, some tm =>
-      match load env ⟨cfg, tested⟩ p tm fs with
-      | some pl => (fs, "hit " ++ toHex pl)
-      | none => (fs, "miss")
-    | _, _, _, _ => (fs, "bad-op")
-  | _ => (fs, "bad-op")
+      match load (env st.np) ⟨cfg, tested⟩ p tm st.fs with
+      | some pl => (st, "hit " ++ toHex pl)
+      | none => (st, "miss")
+    | _, _, _, _ => (st, "bad-op")
+  | _ => (st, "bad-op")
 
 end GV.Driver.C20
